@@ -14,7 +14,8 @@ RULE = ("one seeded history of 3-60 create/set/get/get-default/list calls over 5
 SECS = ["s1", "s2", "Sec 3", "x", "S"]
 KEYS = ["a", "b", "key c", "d", "E"]
 NOOBJ = 99
-VALS = ["", "v", "hello world", " padded ", "a=b", "# not a comment", "\"q\"", "[x]", "1", "true", "0x10", "multi\nline", "tab\there", "Yes Please"]
+LONG = ["L" * 300, "x" * 1100 + " y", "seg " * 600, "k" * 2500]
+VALS = LONG + ["", "v", "hello world", " padded ", "a=b", "# not a comment", "\"q\"", "[x]", "1", "true", "0x10", "multi\nline", "tab\there", "Yes Please"]
 
 
 def spell(rng, s):
@@ -40,6 +41,9 @@ def gen_world(rng, i, tier):
         uni_s = [None] + ["m%02d" % k for k in range(rng.pick([9, 16, 17, 33]))]     # section list past its allocation steps
         n = max(n, 40)
     uni_k = rng.subset(KEYS, 1, 5)
+    if rng.chance(0.05):
+        uni_k = uni_k + ["K" * rng.pick([200, 1030, 3000])]      # long (but far below BUFSIZ) key and section names
+        uni_s = uni_s + ["S" * rng.pick([200, 1030, 3000])]
     uid = 0
     have = set((e[0], e[1]) for e in w.get("file", []))
     for _ in range(n):
@@ -66,8 +70,13 @@ def gen_world(rng, i, tier):
                 val = rng.pick([0, 2**64 - 1, rng.randrange(0, 10**15)])
             elif ty == "Bool":
                 val = rng.pick(["true", "false", "yes", "no", "1", "0", "TRUE", "No", "YES"])
+            elif ty == "Float":
+                val = rng.pick([0.0, 1.5, -2.25, 1e10, 3.0, 3.4028234663852886e+38, -3.4028234663852886e+38, 1.1754943508222875e-38, -1.00000001e-30, 16777217.0])
             else:
-                val = rng.pick([0.0, 1.5, -2.25, 1e10, 3.0])
+                val = rng.pick([0.0, 1.5, -2.25, 1e10, 3.0, 1.7976931348623157e+308, -1.7976931348623157e+308, 2.2250738585072014e-308, -2.2250738585072014e-308,
+                                -1.2345678901234567e+100, 1.2345678901234567e-100, 0.1, -123456789.12345678])
+                # (subnormal values are left out: reading them back is refused with a conversion error today,
+                #  which is C08/C09's subject, not this property's)
             w["ops"].append(["set", ty, spell(rng, s), k, val])
         elif r < 0.60:
             w["ops"].append(["get", spell(rng, s), k])
@@ -133,6 +142,8 @@ def build_plans(world):
         ops.append(dict(to_exec(a), tag="h"))
         if a[0] == "set" and a[1] != "String":
             ops.append({"op": "get", "k": 0, "type": "String", "group": a[2], "key": a[3], "tag": "learn"})
+            if a[1] != "Bool":
+                ops.append({"op": "get", "k": 0, "type": a[1], "group": a[2], "key": a[3], "tag": "typed"})
     ops.append({"op": "dump", "k": 0, "ext": False, "tag": "final"})
     ops.append({"op": "free", "k": 0})
     return [{"cfg": world["cfg"], "tree": tree, "ops": ops}]
@@ -172,9 +183,13 @@ def check(world, plans, results):
         if o == "set":
             ty, g, k, val = a[1], a[2], a[3], a[4]
             learn = None
+            typed = None
             if ty != "String":
                 learn = rs[ri]
                 ri += 1
+                if ty != "Bool":
+                    typed = rs[ri]
+                    ri += 1
             if r["rc"] != 0:
                 v.fail("set:rc", "%s: setter failed with %r" % (where, r["rc"]))
                 continue
@@ -188,6 +203,18 @@ def check(world, plans, results):
                 text = nz(learn.get("v"))
             elif learn is not None and (learn["rc"] != 0 or nz(learn.get("v")) != text):
                 v.fail("set:text", "%s: string getter reports %r right after the typed set, expected %r" % (where, learn, text))
+            if typed is not None:
+                # the matching typed getter returns the value last set
+                import struct
+                got = typed.get("v")
+                if ty in ("Int", "Int64", "UInt", "UInt64"):
+                    okv = typed["rc"] == 0 and got == val
+                elif ty == "Float":
+                    okv = typed["rc"] == 0 and isinstance(got, dict) and got["bits"] == struct.unpack("<I", struct.pack("<f", val))[0]
+                else:
+                    okv = typed["rc"] == 0 and isinstance(got, dict) and got["bits"] == struct.unpack("<Q", struct.pack("<d", val))[0]
+                if not okv:
+                    v.fail("set:typed", "%s: the matching typed getter returns %r (stored text %r) right after the set" % (where, typed, text))
             m.set(g, k, text)
             if len(m.entries) > max(8, base_len):
                 flags["growth"] = True
